@@ -427,6 +427,25 @@ def ssacheckCmd (rest : String) : String :=
     if rs.isEmpty then s!"ok vars={vars.length} stmts={(Ssa.allStmts g).length} phis={((Ssa.allStmts g).filter (·.isPhi)).length}" else "fail " ++ " ".intercalate rs
   | none => "bad-op"
 
+/-- `phicomplete <ssa cfg>`: the phi statements that lack an argument for some incoming edge (the
+    variable has no version at the end of that predecessor): hypothesis `PhiComplete` of C06 -/
+def phicompleteCmd (rest : String) : String :=
+  match Sexp.parse rest with
+  | some c =>
+    let g := ssaCfgOf c
+    let ins := Ssa.guessIns g
+    let n := g.blocks.length
+    let bad := (List.range n).flatMap (fun i =>
+      let b := g.block i
+      b.stmts.filterMap (fun s =>
+        if s.isPhi then
+          match s.target with
+          | some (v, k) => if b.preds.any (fun p => (Ssa.outOf g ins p v).isNone) then some s!"{v}@{k}" else none
+          | none => none
+        else none))
+    if bad.isEmpty then "complete" else "incomplete " ++ " ".intercalate bad
+  | none => "bad-op"
+
 -- ---------------------------------------------------------------- IR decoding (C06/C07/C20)
 
 def vnameOf (v : Sexp) : Ir.VName :=
@@ -584,6 +603,7 @@ def handle (line : String) : String :=
   if line.startsWith "traces " then tracesCmd (line.drop 7).toString else
   if line.startsWith "uniq " then uniqCmd (line.drop 5).toString else
   if line.startsWith "ssacheck " then ssacheckCmd (line.drop 9).toString else
+  if line.startsWith "phicomplete " then phicompleteCmd (line.drop 12).toString else
   if line.startsWith "propagate " then propagateCmd (line.drop 10).toString else
   match line.splitOn " " with
   | "field" :: args => fieldCmd args
